@@ -18,7 +18,12 @@ func vtx(r *lib.Rng, ct geom.CoordinatesType, x, y int) [4]float64 {
 	return v
 }
 
+// An empty Point stores zero ordinates: a bug that forgets the non-empty flag shows only against
+// geometry located exactly at the origin. The generators therefore put vertices at (0 0) often.
 func genPoint(r *lib.Rng, ct geom.CoordinatesType, ox int) *lib.Node {
+	if ox == 0 && r.Chance(1, 4) {
+		return &lib.Node{Kind: lib.KPoint, CT: ct, Full: true, C: [][4]float64{{0, 0, 0, 0}}}
+	}
 	return &lib.Node{Kind: lib.KPoint, CT: ct, Full: true, C: [][4]float64{vtx(r, ct, ox+r.Range(0, 6), r.Range(0, 6))}}
 }
 
@@ -28,6 +33,9 @@ func genLine(r *lib.Rng, ct geom.CoordinatesType, ox int) *lib.Node {
 	k := r.Range(2, 4)
 	for i := 0; i < k; i++ {
 		n.C = append(n.C, vtx(r, ct, ox+r.Range(0, 6), r.Range(0, 6)))
+	}
+	if ox == 0 && r.Chance(1, 4) {
+		n.C[0] = [4]float64{0, 0, 0, 0}
 	}
 	if n.C[0][0] == n.C[1][0] && n.C[0][1] == n.C[1][1] {
 		n.C[1][0]++
@@ -49,6 +57,9 @@ func genPoly(r *lib.Rng, ct geom.CoordinatesType, ox int) *lib.Node {
 	n := &lib.Node{Kind: lib.KPoly, CT: ct}
 	x0 := ox + r.Range(0, 2)
 	y0 := r.Range(0, 2)
+	if ox == 0 && r.Chance(1, 3) {
+		x0, y0 = 0, 0
+	}
 	w := r.Range(1, 4)
 	h := r.Range(1, 4)
 	switch r.Intn(3) {
@@ -191,6 +202,65 @@ func emptyPool(r *lib.Rng, extra int) []*lib.Node {
 			e.Ms = append(e.Ms, genEmp(r, 2))
 		}
 		out = append(out, empNode(allCT[r.Intn(4)], e))
+	}
+	return out
+}
+
+func nodeLine(ct geom.CoordinatesType, xs ...int) *lib.Node {
+	n := &lib.Node{Kind: lib.KLine, CT: ct}
+	for i := 0; i+1 < len(xs); i += 2 {
+		n.C = append(n.C, [4]float64{float64(xs[i]), float64(xs[i+1]), 0, 0})
+	}
+	return n
+}
+
+func nodePoint(ct geom.CoordinatesType, x, y int) *lib.Node {
+	return &lib.Node{Kind: lib.KPoint, CT: ct, Full: true, C: [][4]float64{{float64(x), float64(y), 0, 0}}}
+}
+
+func nodeOf(kind lib.Kind, ct geom.CoordinatesType, kids ...*lib.Node) *lib.Node {
+	return &lib.Node{Kind: kind, CT: ct, Kids: kids}
+}
+
+// originPartners: geometries located exactly at the origin (all of Z and M are 0 as well), of every
+// type: the origin as the only point, as one of several, as an end point, as an interior point of a
+// segment, as a polygon vertex, in a polygon's interior.
+func originPartners() []*lib.Node {
+	var out []*lib.Node
+	for _, ct := range allCT {
+		out = append(out, nodePoint(ct, 0, 0), nodeOf(lib.KMPoint, ct, nodePoint(ct, 0, 0)))
+	}
+	ct := geom.DimXY
+	out = append(out,
+		nodeOf(lib.KMPoint, ct, nodePoint(ct, 0, 0), nodePoint(ct, 3, 4)),
+		nodeOf(lib.KMPoint, ct, nodePoint(ct, 3, 4), nodePoint(ct, 0, 0)),
+		nodeLine(ct, 0, 0, 2, 0),
+		nodeLine(ct, -1, -1, 1, 1),
+		nodeOf(lib.KMLine, ct, nodeLine(ct, 0, 0, 0, 3), nodeLine(ct, 5, 5, 6, 6)),
+		nodeOf(lib.KPoly, ct, nodeLine(ct, 0, 0, 2, 0, 0, 2, 0, 0)),
+		nodeOf(lib.KPoly, ct, nodeLine(ct, -1, -1, 1, -1, 1, 1, -1, 1, -1, -1)),
+		nodeOf(lib.KMPoly, ct, nodeOf(lib.KPoly, ct, nodeLine(ct, 0, 0, 2, 0, 0, 2, 0, 0))),
+		nodeOf(lib.KColl, ct, nodePoint(ct, 0, 0)),
+		nodeOf(lib.KColl, ct, nodeOf(lib.KMPoint, ct, nodePoint(ct, 0, 0)), nodeLine(ct, 7, 7, 8, 8)),
+	)
+	return out
+}
+
+// originBases: small bases of every container kind, some touching the origin and some away from it
+// (the revealing case for a leaked (0 0) is a base that does NOT contain the origin).
+func originBases() []*lib.Node {
+	var out []*lib.Node
+	for _, ct := range []geom.CoordinatesType{geom.DimXY, geom.DimXYZM} {
+		out = append(out,
+			nodeOf(lib.KMPoint, ct, nodePoint(ct, 3, 4)),
+			nodeOf(lib.KMPoint, ct, nodePoint(ct, 0, 0), nodePoint(ct, 3, 4)),
+			nodeOf(lib.KMLine, ct, nodeLine(ct, 1, 1, 3, 1)),
+			nodeOf(lib.KMLine, ct, nodeLine(ct, 0, 0, 2, 2)),
+			nodeOf(lib.KMPoly, ct, nodeOf(lib.KPoly, ct, nodeLine(ct, 1, 1, 3, 1, 1, 3, 1, 1))),
+			nodeOf(lib.KMPoly, ct, nodeOf(lib.KPoly, ct, nodeLine(ct, 0, 0, 2, 0, 0, 2, 0, 0))),
+			nodeOf(lib.KColl, ct, nodePoint(ct, 3, 4)),
+			nodeOf(lib.KColl, ct, nodeOf(lib.KMPoint, ct, nodePoint(ct, 3, 4)), nodeLine(ct, 1, 1, 2, 2)),
+		)
 	}
 	return out
 }
